@@ -431,13 +431,24 @@ Proof. intros B sep others Hs. unfold join. now rewrite Hs. Qed.
 Lemma zlen_repeat {A} (x : A) n : zlen (repeat x n) = Z.of_nat n.
 Proof. unfold zlen. now rewrite repeat_length. Qed.
 
+(** The float-free core of [make_silence]: [n * w * ch] zero bytes always form a
+    region.  ([C17_silence] below mentions Flocq's [Bmult] in its statement, and
+    that constant carries validity proofs done with the axioms of the Reals.) *)
+Lemma silence_make_ok : forall sr w ch n, 0 < w -> 0 < ch -> 0 <= n ->
+  make (repeat 0 (Z.to_nat (n * w * ch))) sr w ch
+  = Ok (mkRegion (repeat 0 (Z.to_nat (n * w * ch))) sr w ch).
+Proof.
+  intros sr w ch n Hw Hch Hn.
+  apply make_ok; [nia|]. rewrite zlen_repeat, Z2Nat.id by nia.
+  exists n. ring.
+Qed.
+
 Theorem C17_silence : forall d sr w ch n, 0 < w -> 0 < ch ->
   py_round (fmul d (of_Z sr)) = Some n -> 0 <= n ->
   make_silence d sr w ch = Ok (mkRegion (repeat 0 (Z.to_nat (n * w * ch))) sr w ch).
 Proof.
   intros d sr w ch n Hw Hch Hr Hn. unfold make_silence, silence_size. rewrite Hr.
-  apply make_ok; [nia|]. rewrite zlen_repeat, Z2Nat.id by nia.
-  exists n. ring.
+  now apply silence_make_ok.
 Qed.
 
 Lemma list_eqb_iff : forall a b : list Z, list_eqb a b = true <-> a = b.
@@ -700,7 +711,8 @@ Example ex_silence :
 Proof.
   assert (H : py_round (fmul (ms_to_sec 500) (of_Z 16000)) = Some 8000)
     by (vm_compute; reflexivity).
-  split; [exact H|]. now apply C17_silence.
+  split; [exact H|].
+  exact (C17_silence (ms_to_sec 500) 16000 2 1 8000 eq_refl eq_refl H ltac:(lia)).
 Qed.
 
 Example ex_eq :
@@ -749,3 +761,10 @@ Print Assumptions C17_div.
 Print Assumptions C17_div_balanced.
 Print Assumptions C17_div_type_error.
 Print Assumptions C17_eq.
+(* The Reals axioms listed for C16_millis and C17_silence come from the
+   constants in their STATEMENTS (Flocq's Bdiv / Bmult inside ms_to_sec / fmul),
+   not from the proofs: the definitions alone already depend on them, and the
+   float-free core of C17_silence is closed. *)
+Print Assumptions ms_to_sec.
+Print Assumptions fmul.
+Print Assumptions silence_make_ok.
